@@ -545,20 +545,91 @@ func init() {
 		u.heapSet(st, "G!remaining", SInt, app("store", h, rd.S, "0"))
 		return &Val{T: tp, Tuple: []*Val{bs, errV}}
 	}
+	// ownership (device 3): ghost "backing" of a reader = the object whose memory it reads from (0 = private
+	// memory); ghost "released" of a pooled object = it has been handed back to its pool.
+	hasOwn := func(u *Unit) bool {
+		_, a := u.eng.cs.GhostFields["backing"]
+		_, b := u.eng.cs.GhostFields["released"]
+		return a && b
+	}
+	regionOf := func(u *Unit, arr string) string {
+		return app(u.d.fun("region!slice", []string{arrSort(SInt, SInt)}, SInt), arr)
+	}
+	setBacking := func(u *Unit, st *State, r, val string) {
+		if hasOwn(u) {
+			h := u.heapGet(st, "G!backing", SInt)
+			u.heapSet(st, "G!backing", SInt, app("store", h, r, val))
+		}
+	}
+	getBacking := func(u *Unit, st *State, r string) string {
+		return app("select", u.heapGet(st, "G!backing", SInt), r)
+	}
 	models["bytes.NewReader"] = func(u *Unit, st *State, x *ast.CallExpr, _ *Val, fn *types.Func) *Val {
-		u.trusted["model: bytes.NewReader / io.NopCloser create a fresh reader over the same content"] = true
+		u.trusted["model: bytes.NewReader / io.NopCloser / io.MultiReader create a fresh reader over the same content and the same backing memory"] = true
 		b := u.eval(st, x.Args[0])
 		r := u.alloc(st)
 		u.heapSet(st, "G!remaining", SInt, app("store", remH(u, st), r, bytesContent(u, b)))
+		if hasOwn(u) && b.Arr != "" {
+			setBacking(u, st, r, regionOf(u, b.Arr))
+		}
 		return &Val{T: u.typeOf(x), S: r}
 	}
 	models["io.NopCloser"] = func(u *Unit, st *State, x *ast.CallExpr, _ *Val, fn *types.Func) *Val {
-		u.trusted["model: bytes.NewReader / io.NopCloser create a fresh reader over the same content"] = true
+		u.trusted["model: bytes.NewReader / io.NopCloser / io.MultiReader create a fresh reader over the same content and the same backing memory"] = true
 		rd := u.eval(st, x.Args[0])
 		r := u.alloc(st)
 		h := remH(u, st)
 		u.heapSet(st, "G!remaining", SInt, app("store", h, r, app("select", h, rd.S)))
+		if hasOwn(u) {
+			setBacking(u, st, r, getBacking(u, st, rd.S))
+		}
 		return &Val{T: u.typeOf(x), S: r}
+	}
+	models["io.MultiReader"] = func(u *Unit, st *State, x *ast.CallExpr, _ *Val, fn *types.Func) *Val {
+		u.trusted["model: bytes.NewReader / io.NopCloser / io.MultiReader create a fresh reader over the same content and the same backing memory"] = true
+		var rs []*Val
+		for _, a := range x.Args {
+			rs = append(rs, u.eval(st, a))
+		}
+		r := u.alloc(st)
+		if hasOwn(u) && len(rs) > 0 {
+			// reads from the first part's memory first (a released part anywhere makes the whole unsafe: first non-private wins)
+			b := "0"
+			for i := len(rs) - 1; i >= 0; i-- {
+				bi := getBacking(u, st, rs[i].S)
+				b = tIte(app("distinct", bi, "0"), bi, b)
+			}
+			setBacking(u, st, r, b)
+		}
+		return &Val{T: u.typeOf(x), S: r}
+	}
+	models["(*bytes.Buffer).Bytes"] = func(u *Unit, st *State, x *ast.CallExpr, recv *Val, fn *types.Func) *Val {
+		u.trusted["model: (*bytes.Buffer).Bytes returns a slice into the buffer's own memory"] = true
+		bs := u.freshVal(st, u.typeOf(x), "bufbytes")
+		if hasOwn(u) {
+			st.assumeFact(tEq(regionOf(u, bs.Arr), recv.S))
+		}
+		return bs
+	}
+	poolPfx := "(*github.com/thushan/olla/pkg/pool.Pool)."
+	models[poolPfx+"Get"] = func(u *Unit, st *State, x *ast.CallExpr, recv *Val, fn *types.Func) *Val {
+		u.trusted["model: pool.Get hands out an object not currently in the pool (released := false); pool.Put releases it"] = true
+		v := u.callResult(st, u.typeOf(x), "pooled")
+		if hasOwn(u) && kindOf(v.T) == kRef {
+			st.assumeFact(app("distinct", v.S, "0"))
+			h := u.heapGet(st, "G!released", SBool)
+			u.heapSet(st, "G!released", SBool, app("store", h, v.S, "false"))
+		}
+		return v
+	}
+	models[poolPfx+"Put"] = func(u *Unit, st *State, x *ast.CallExpr, recv *Val, fn *types.Func) *Val {
+		u.trusted["model: pool.Get hands out an object not currently in the pool (released := false); pool.Put releases it"] = true
+		v := u.eval(st, x.Args[0])
+		if hasOwn(u) && kindOf(v.T) == kRef {
+			h := u.heapGet(st, "G!released", SBool)
+			u.heapSet(st, "G!released", SBool, app("store", h, v.S, "true"))
+		}
+		return &Val{}
 	}
 
 	// ---- context
